@@ -55,6 +55,15 @@ pub mod reqwest {
         use vstd::prelude::*;
         verus! {
         pub struct HeaderName { pub x: u8 }
+        // what can name a header in a lookup: a text or a HeaderName constant (none of the constants is one of the two names modelled)
+        pub trait AsHeaderName { spec fn name_text(&self) -> Seq<char>; }
+        impl<'a> AsHeaderName for &'a str { open spec fn name_text(&self) -> Seq<char> { self@ } }
+        impl<'a> AsHeaderName for &'a String { open spec fn name_text(&self) -> Seq<char> { self@ } }
+        pub uninterp spec fn std_header_text(x: u8) -> Seq<char>;
+        impl AsHeaderName for HeaderName { open spec fn name_text(&self) -> Seq<char> { std_header_text(self.x) } }
+        #[verifier::external_body]
+        pub broadcast proof fn axiom_std_header_names(x: u8)
+            ensures #[trigger] std_header_text(x) != "Replay-Nonce"@ && std_header_text(x) != "Location"@ {}
         pub const ACCEPT: HeaderName = HeaderName { x: 0 };
         pub const CONTENT_TYPE: HeaderName = HeaderName { x: 1 };
         pub const ACCEPT_LANGUAGE: HeaderName = HeaderName { x: 2 };
@@ -85,9 +94,13 @@ pub mod reqwest {
             pub fn append(&mut self, k: HeaderName, v: HeaderValue) -> bool { unimplemented!() }
             // lookup by (case-insensitive) name; only the two names acmed reads are modelled
             #[verifier::external_body]
-            pub fn get(&self, name: &str) -> (r: Option<&HeaderValue>)
-                ensures name@ == "Replay-Nonce"@ ==> (match r { Some(v) => self.nonce@ == Some(*v), None => self.nonce@ is None }),
-                        name@ == "Location"@ ==> (match r { Some(v) => self.location@ == Some(*v), None => self.location@ is None }),
+            pub fn get<K: AsHeaderName>(&self, name: K) -> (r: Option<&HeaderValue>)
+                ensures name.name_text() == "Replay-Nonce"@ ==> (match r { Some(v) => self.nonce@ == Some(*v), None => self.nonce@ is None }),
+                        name.name_text() == "Location"@ ==> (match r { Some(v) => self.location@ == Some(*v), None => self.location@ is None }),
+            { unimplemented!() }
+            #[verifier::external_body]
+            pub fn contains_key<K: AsHeaderName>(&self, name: K) -> (r: bool)
+                ensures name.name_text() == "Replay-Nonce"@ ==> r == (self.nonce@ is Some), name.name_text() == "Location"@ ==> r == (self.location@ is Some),
             { unimplemented!() }
         }
         impl Clone for HeaderMap {
